@@ -2,8 +2,8 @@ package sqlgen
 
 import (
 	"fmt"
-	"regexp"
 	"strings"
+	"unicode"
 )
 
 // Env binds "alias.column" to the value of the current (joined) row.
@@ -240,8 +240,8 @@ func (e *InList) Eval(env Env) (Value, bool, error) {
 	return Bool(found != e.Not), h, nil
 }
 
-// Like is `E [NOT] LIKE 'pattern'` over a VARCHAR operand (% and _ wildcards,
-// backslash escapes). A NULL operand gives FALSE for LIKE and TRUE for NOT
+// Like is `E [NOT] LIKE 'pattern'` over a VARCHAR operand (% and _ wildcards
+// over characters, backslash escapes). A NULL operand gives FALSE for LIKE and TRUE for NOT
 // LIKE in the engine; such rows are hinge rows.
 type Like struct {
 	E       Expr
@@ -272,31 +272,7 @@ func (e *Like) Eval(env Env) (Value, bool, error) {
 	if v.Null {
 		return Bool(e.Not), true, nil
 	}
-	var sb strings.Builder
-	sb.WriteString("^")
-	if e.ILike {
-		sb.Reset()
-		sb.WriteString("(?i)^")
-	}
-	p := e.Pattern
-	for i := 0; i < len(p); i++ {
-		switch {
-		case p[i] == '\\' && i+1 < len(p):
-			sb.WriteString(regexp.QuoteMeta(string(p[i+1])))
-			i++
-		case p[i] == '%':
-			sb.WriteString(".*")
-		case p[i] == '_':
-			sb.WriteString(".")
-		default:
-			sb.WriteString(regexp.QuoteMeta(string(p[i])))
-		}
-	}
-	sb.WriteString("$")
-	m, err := regexp.MatchString(sb.String(), v.S)
-	if err != nil {
-		return Value{}, false, err
-	}
+	m := likeMatch([]rune(e.Pattern), []rune(v.S), e.ILike)
 	return Bool(m != e.Not), h, nil
 }
 
@@ -352,6 +328,66 @@ func (e *Arith) Eval(env Env) (Value, bool, error) {
 		return Int(l.I * r.I), false, nil
 	}
 	return Value{}, false, fmt.Errorf("unknown arithmetic operator %q", e.Op)
+}
+
+// likeMatch is SQL LIKE over characters (not bytes): % matches any sequence of
+// characters, _ exactly one character (newlines included), a backslash makes
+// the next pattern character literal; fold compares case-insensitively (ILIKE).
+func likeMatch(p, s []rune, fold bool) bool {
+	type tok struct {
+		r    rune
+		kind byte // 'c' literal, '_' one character, '%' any sequence
+	}
+	var toks []tok
+	for i := 0; i < len(p); i++ {
+		switch {
+		case p[i] == '\\' && i+1 < len(p):
+			i++
+			toks = append(toks, tok{p[i], 'c'})
+		case p[i] == '%':
+			toks = append(toks, tok{0, '%'})
+		case p[i] == '_':
+			toks = append(toks, tok{0, '_'})
+		default:
+			toks = append(toks, tok{p[i], 'c'})
+		}
+	}
+	eq := func(a, b rune) bool {
+		if a == b {
+			return true
+		}
+		if !fold {
+			return false
+		}
+		for r := unicode.SimpleFold(a); r != a; r = unicode.SimpleFold(r) {
+			if r == b {
+				return true
+			}
+		}
+		return false
+	}
+	// reach[j]: the first j characters of s can be consumed by the tokens seen so far
+	reach := make([]bool, len(s)+1)
+	reach[0] = true
+	for _, t := range toks {
+		next := make([]bool, len(s)+1)
+		switch t.kind {
+		case '%':
+			on := false
+			for j := 0; j <= len(s); j++ {
+				on = on || reach[j]
+				next[j] = on
+			}
+		default:
+			for j := 0; j < len(s); j++ {
+				if reach[j] && (t.kind == '_' || eq(t.r, s[j])) {
+					next[j+1] = true
+				}
+			}
+		}
+		reach = next
+	}
+	return reach[len(s)]
 }
 
 // CollectParams gathers the named parameters of the expressions.
